@@ -129,6 +129,9 @@ def _aggregate(ctx, pydrex, case):
         return
     nontriv = len(phases) == 2 or (n > 1 and case["tex"] != "single")
     ctx.case(case, nontrivial=nontriv)
+    untouched = all(np.array_equal(m_.orientations[s_], data[ph][0][s_]) and np.array_equal(m_.fractions[s_], data[ph][1][s_])
+                    for m_, ph in zip(minerals, phases) for s_ in range(steps))
+    ctx.check("minerals_not_mutated", untouched, case)
     ctx.cls(f"assemblage={case['assemblage']}")
     ctx.cls("custom_tensors" if case["custom"] else "builtin_tensors")
     ctx.check("shape", C.shape == (steps, 6, 6), case, shape=list(C.shape))
